@@ -53,6 +53,7 @@ type Run struct {
 	viols    []*Violation
 	seenFP   map[string]bool
 	harnessE []string
+	shardOut string
 }
 
 // Root returns the verif root directory.
@@ -221,6 +222,9 @@ func (r *Run) Finish() {
 func (r *Run) finish() int {
 	r.mu.Lock()
 	defer r.mu.Unlock()
+	if r.shardOut != "" {
+		return r.writeShard()
+	}
 	kn := loadKnown(r.Root)
 	unknown := 0
 	sort.SliceStable(r.viols, func(i, j int) bool { return len(r.viols[i].Trace) < len(r.viols[j].Trace) })
